@@ -21,17 +21,53 @@ requests
   `{"op":"alias","ops":[aop,…]}`                the world of OBJECTS (`Model/StorageAlias.lean`: identities of the dicts / lists)
                                                  from an empty job table; every answer with the identity of each container:
                                                  `{"d":[…],"id":n}` / `{"l":[…],"id":n}`
-      aop  `["new_job",jid]` | `["store_job",jid,key,REF]` | `["store_meta",jid,key,REF]` | `["load_job",jid]` | `["load_all"]`
+      aop  `["submit",jid,REF]` (a real evaluator submits REF and runs the job: `World.submit`) |
+           `["new_job",jid]` | `["store_job",jid,key,REF]` | `["store_meta",jid,key,REF]` | `["load_job",jid]` | `["load_all"]`
            | `["load_jobs",[jid,…]]` | `["edit",REF,["set",key,REF] | ["del",key] | ["append",REF] | ["clear"]]`
       REF  `{"new":value}` (an object the caller just built) | `{"held":i,"path":[key,…]}` (a part of what the i-th
            successful load returned)
 values  `null` | `true` | `{"i":n}` | `{"f":"n/d"}` | `{"s":"…"}` | `{"l":[…]}` | `{"t":[…]}` | `{"d":[[key,value],…]}`
+keys / identifiers in calls: a JSON string (a str) or a value `null | true | {"i":n} | {"f":"n/d"} | {"s":"…"} | {"t":[item,…]}`
+        (a key of another hashable type; rendered by `Key.render`); in answers the keys of dicts are the rendered strings
 OUT     `{"k":"none"}` | `{"k":"id","v":"0.1"}` | `{"k":"ids","v":[…]}` | `{"k":"val","v":value}` |
         `{"k":"vals","v":[value,…]}` | `{"k":"error","v":"KeyError"}` | `{"k":"oom"}`
 -/
 
 open Lean DH.Wire DH.Storage
 
+/-! keys and identifiers of any hashable type: a JSON string is a str key, anything else an ordinary wire value
+(`null`, `true`, `{"i":1}`, `{"f":"5/2"}`, `{"s":"a"}`, `{"t":[item,…]}`); the model's string key is `Key.render` of it
+(injective: `C13_key_rendering_injective`) -/
+
+def jKAtom (j : Json) : Except String KAtom :=
+  match j with
+  | .null => .ok .none
+  | .bool b => .ok (.num (if b then 1 else 0))
+  | .str s => .ok (.str s)
+  | _ =>
+    match j.getObjVal? "i" with
+    | .ok v => do return .num (Rat.ofInt (← jInt v))
+    | .error _ =>
+    match j.getObjVal? "f" with
+    | .ok v => do return .num (← jRat v)
+    | .error _ =>
+    match j.getObjVal? "s" with
+    | .ok v => do return .str (← jStr v)
+    | .error _ => .error s!"bad key {j.compress}"
+
+def jKeyT (j : Json) : Except String Key :=
+  match j with
+  | .null | .bool _ | .str _ => do return .atom (← jKAtom j)
+  | _ =>
+    match j.getObjVal? "t" with
+    | .ok v => do return .tuple (← jList jKAtom v)
+    | .error _ => do return .atom (← jKAtom j)
+
+/-- the model's string for a key / identifier on the wire -/
+def jKey (j : Json) : Except String String := do return (← jKeyT j).render
+
+/-- a value in the form calls carry it: dict keys are wire keys (rendered here; two keys that are equal for a Python
+dict are one entry, the later value at the place of the first: `aset`) -/
 partial def jVal (j : Json) : Except String Val :=
   match j with
   | .null => .ok .none
@@ -56,8 +92,39 @@ partial def jVal (j : Json) : Except String Val :=
     | .ok v => do
       let kvs ← jList (fun p => do
         let a ← p.getArr?
-        let k ← jStr (a.getD 0 Json.null)
+        let k ← jKey (a.getD 0 Json.null)
         let x ← jVal (a.getD 1 Json.null)
+        return (k, x)) v
+      return .dict (kvs.foldl (fun acc p => aset p.1 p.2 acc) [])
+    | .error _ => .error s!"bad value {j.compress}"
+
+/-- a value in the form answers carry it: the keys of dicts are already rendered -/
+partial def jValOut (j : Json) : Except String Val :=
+  match j with
+  | .null => .ok .none
+  | .bool b => .ok (.bool b)
+  | _ =>
+    match j.getObjVal? "i" with
+    | .ok v => do return .int (← jInt v)
+    | .error _ =>
+    match j.getObjVal? "f" with
+    | .ok v => do return .num (← jRat v)
+    | .error _ =>
+    match j.getObjVal? "s" with
+    | .ok v => do return .str (← jStr v)
+    | .error _ =>
+    match j.getObjVal? "l" with
+    | .ok v => do return .list (← jList jValOut v)
+    | .error _ =>
+    match j.getObjVal? "t" with
+    | .ok v => do return .tuple (← jList jValOut v)
+    | .error _ =>
+    match j.getObjVal? "d" with
+    | .ok v => do
+      let kvs ← jList (fun p => do
+        let a ← p.getArr?
+        let k ← jStr (a.getD 0 Json.null)
+        let x ← jValOut (a.getD 1 Json.null)
         return (k, x)) v
       return .dict kvs
     | .error _ => .error s!"bad value {j.compress}"
@@ -92,7 +159,7 @@ def outJson : Out → Json
 def jOp (j : Json) : Except String Op := do
   let a ← j.getArr?
   let name ← jStr (a.getD 0 Json.null)
-  let s (i : Nat) : Except String String := jStr (a.getD i Json.null)
+  let s (i : Nat) : Except String String := jKey (a.getD i Json.null)
   let v (i : Nat) : Except String Val := jVal (a.getD i Json.null)
   match name with
   | "create_new_search" => return .createSearch
@@ -110,9 +177,42 @@ def jOp (j : Json) : Except String Op := do
   | "load_search_value" => return .loadSearchValue (← s 1) (← s 2)
   | "load_metadata_from_all_jobs" => return .loadMetadataFromAllJobs (← s 1) (← s 2)
   | "load_out_from_all_jobs" => return .loadOutFromAllJobs (← s 1)
-  | "load_jobs" => return .loadJobs (← jList jStr (a.getD 1 Json.null))
+  | "load_jobs" => return .loadJobs (← jList jKey (a.getD 1 Json.null))
   | "load_job_status" => return .loadJobStatus (← s 1)
   | _ => throw s!"unknown method {name}"
+
+def isStrJson : Json → Bool
+  | .str _ => true
+  | _ => false
+
+/-- the methods that start with `job_id.split(".")` -/
+def jobIdFirst (name : String) : Bool :=
+  ["store_job", "store_job_in", "store_job_out", "store_job_metadata", "store_job_status", "load_job", "load_job_status",
+   "job_status", "running_job_status", "job_status_set"].contains name
+
+/-- a call as the real object sees it: a job identifier that is not a str has no `split` — `AttributeError` before anything
+is looked up (no step of the model); `load_jobs` walks its list and raises at the first such identifier, unless an earlier
+one is unknown / malformed; every other call is an `Op` -/
+inductive Call where
+  | op (o : Op)
+  | attrErr
+  | jobsThenAttr (pre : List String)
+  | view (jid : String)            -- `Job(jid, …).status` / `RunningJob(jid, …).status` through any handle: `viewStatus`
+
+def jCall (j : Json) : Except String Call := do
+  let a ← j.getArr?
+  let name ← jStr (a.getD 0 Json.null)
+  if jobIdFirst name && !isStrJson (a.getD 1 Json.null) then
+    return .attrErr
+  if name == "job_status" || name == "running_job_status" then
+    return .view (← jKey (a.getD 1 Json.null))
+  if name == "job_status_set" then          -- `handle.status = JobStatus(v)`: `setStatus`
+    return .op (.storeJobStatus (← jKey (a.getD 1 Json.null)) (← jVal (a.getD 2 Json.null)))
+  if name == "load_jobs" then
+    let ids ← (a.getD 1 Json.null).getArr?
+    if ids.any (fun x => !isStrJson x) then
+      return .jobsThenAttr (← (ids.toList.takeWhile isStrJson).mapM jStr)
+  return .op (← jOp j)
 
 def jErr (s : String) : Except String Err :=
   match s with
@@ -129,8 +229,8 @@ def jOut (j : Json) : Except String Out := do
   | "none" => return .none
   | "id" => return .id (← jStr (← field j "v"))
   | "ids" => return .ids (← jList jStr (← field j "v"))
-  | "val" => return .val (← jVal (← field j "v"))
-  | "vals" => return .vals (← jList jVal (← field j "v"))
+  | "val" => return .val (← jValOut (← field j "v"))
+  | "vals" => return .vals (← jList jValOut (← field j "v"))
   | "error" => return .error (← jErr (← jStr (← field j "v")))
   | _ => throw s!"unknown answer kind {k}"
 
@@ -209,10 +309,35 @@ def jAOp (W : World) (j : Json) : Except String AOp := do
     | _ => throw "edit: not a container"
   | x => throw s!"unknown aop {x}"
 
+/-- `["submit", jid, REF]`: a real evaluator submits the configuration and runs the job to completion — `create_new_job`,
+`World.submit` (the job's parameters: one deep copy, held outside the storage; the stored inputs: another one), status DONE;
+the answer is the parameters object the run-function received -/
+def runSubmit (W : World) (j : Json) : Except String (World × Json) := do
+  let a ← j.getArr?
+  let jid ← jStr (a.getD 1 Json.null)
+  let W1 := (astep W (.newJob jid)).1
+  let cfg ← resolveRef W1 (a.getD 2 Json.null)
+  let p := (submitObjs W1.next cfg).1
+  let (W2, o) := W1.submit jid cfg
+  let W3 := (astep W2 (.storeJob jid "status" (.atom (.int 2)))).1
+  match o with
+  | .none => return (W3, aoutJson (.val p))
+  | e => return (W3, aoutJson e)
+
+def isSubmit (j : Json) : Bool :=
+  match j.getArr? with
+  | .ok a => (a.getD 0 Json.null) == Json.str "submit"
+  | .error _ => false
+
 /-- a script; an operation whose references cannot be resolved in the model's world (the real storage returned something
 of another shape) is answered `unresolved` and skipped: the harness reports the difference, the driver does not fail -/
 def runAlias (js : List Json) : World × List Json :=
   js.foldl (fun (acc : World × List Json) j =>
+    if isSubmit j then
+      match runSubmit acc.1 j with
+      | .ok (W', o) => (W', acc.2 ++ [o])
+      | .error e => (acc.1, acc.2 ++ [Json.mkObj [("k", "unresolved"), ("v", e)]])
+    else
     match jAOp acc.1 j with
     | .ok op =>
       let (W', o) := astep acc.1 op
@@ -235,6 +360,25 @@ def Sess.calls (x : Sess) : List Op → Sess × List Out
     let (x2, os) := x1.calls ops
     (x2, o :: os)
 
+def Sess.callX (x : Sess) : Call → Sess × Out
+  | .op o => x.call o
+  | .attrErr => (x, .error .attributeError)
+  | .jobsThenAttr pre =>
+    match (x.call (.loadJobs pre)).2 with
+    | .error e => (x, .error e)
+    | _ => (x, .error .attributeError)
+  | .view jid =>
+    match x with
+    | .mem s => (x, viewStatus s jid)
+    | .null _ => (x, (x.call (.loadJobStatus jid)).2)
+
+def Sess.callsX (x : Sess) : List Call → Sess × List Out
+  | [] => (x, [])
+  | c :: cs =>
+    let (x1, o) := x.callX c
+    let (x2, os) := x1.callsX cs
+    (x2, o :: os)
+
 abbrev St := List (Nat × Sess)
 
 def getSess (st : St) (k : Nat) : Option Sess := (st.find? (·.1 == k)).map (·.2)
@@ -255,23 +399,23 @@ def handle (st : St) (j : Json) : Except String (St × Json) := do
   | "call" =>
     let k ← jNat (← field j "s")
     let some x := getSess st k | throw s!"no session {k}"
-    let (x', o) := x.call (← jOp (← field j "c"))
+    let (x', o) := x.callX (← jCall (← field j "c"))
     return (putSess st k x', Json.mkObj [("ok", true), ("out", outJson o)])
   | "hist" =>
     let k ← jNat (← field j "s")
     let x := (getSess st k).getD (.mem Store.init)
-    let ops ← jList jOp (← field j "calls")
-    let (x', os) := x.calls ops
+    let ops ← jList jCall (← field j "calls")
+    let (x', os) := x.callsX ops
     let st' := match j.getObjVal? "keep" with
       | .ok (.bool true) => putSess st k x'
       | _ => st.filter (·.1 != k)
     return (st', Json.mkObj [("ok", true), ("outs", Json.arr (os.map outJson).toArray)])
   | "fan" =>
     -- a shared prefix, then each alternative last call applied to the state after the prefix
-    let ops ← jList jOp (← field j "calls")
-    let alts ← jList jOp (← field j "alts")
-    let (x, os) := (Sess.mem Store.init).calls ops
-    let aos := alts.map (fun op => (x.call op).2)
+    let ops ← jList jCall (← field j "calls")
+    let alts ← jList jCall (← field j "alts")
+    let (x, os) := (Sess.mem Store.init).callsX ops
+    let aos := alts.map (fun op => (x.callX op).2)
     return (st, Json.mkObj [("ok", true), ("outs", Json.arr (os.map outJson).toArray),
       ("alts", Json.arr (aos.map outJson).toArray)])
   | "check" =>
